@@ -123,12 +123,15 @@ type Enc struct {
 	bounded   []string
 	content   bool
 	owner     bool
+	localRefs map[string]bool // objects allocated by the function under verification (not yet shared)
+	compTypes map[string]types.Type
+	compKind  map[string]string // field | elem | mapval
 }
 
 func newEnc(g *G, top *ssa.Function) *Enc {
 	e := &Enc{g: g, declared: map[string]bool{}, comps: map[string]Sort{}, top: top, usedSpecs: map[string]bool{},
 		trusted: map[string]bool{}, abstr: map[string]bool{}, inlined: map[string]bool{}, oblNames: map[string]int{},
-		dtDone: map[string]bool{}, specDone: map[string]bool{}, hints: map[string]string{}}
+		dtDone: map[string]bool{}, specDone: map[string]bool{}, hints: map[string]string{}, localRefs: map[string]bool{}, compTypes: map[string]types.Type{}, compKind: map[string]string{}}
 	if top != nil {
 		e.topKey = fnKey(g, top)
 	}
@@ -179,9 +182,123 @@ func (e *Enc) assume(pc, f string) {
 	e.fact(sImp(pc, f))
 }
 
+func sexprEnd(s string, i int) int {
+	// index just past the s-expression starting at s[i]
+	if s[i] != '(' {
+		j := i
+		for j < len(s) && s[j] != ' ' && s[j] != ')' {
+			j++
+		}
+		return j
+	}
+	d := 0
+	for j := i; j < len(s); j++ {
+		if s[j] == '(' {
+			d++
+		} else if s[j] == ')' {
+			d--
+			if d == 0 {
+				return j + 1
+			}
+		}
+	}
+	return len(s)
+}
+
+func topConjuncts(t string) []string {
+	t = strings.TrimSpace(t)
+	if strings.HasPrefix(t, "(forall ") {
+		// (forall (binders) (! (=> A B) :pattern (...)))  ->  one forall per conjunct of B
+		b0 := 8
+		b1 := sexprEnd(t, b0)
+		rest := strings.TrimSpace(t[b1 : len(t)-1])
+		if strings.HasPrefix(rest, "(! (=> ") {
+			a0 := 7
+			a1 := sexprEnd(rest, a0)
+			c0 := a1 + 1
+			c1 := sexprEnd(rest, c0)
+			tail := rest[c1:]
+			var out []string
+			for _, c := range topConjuncts(rest[c0:c1]) {
+				out = append(out, t[:b1]+" (! (=> "+rest[a0:a1]+" "+c+tail+")")
+			}
+			if len(out) > 1 {
+				return out
+			}
+		}
+		return []string{t}
+	}
+	if !strings.HasPrefix(t, "(and ") {
+		return []string{t}
+	}
+	inner := t[5 : len(t)-1]
+	var out []string
+	depth, start := 0, 0
+	for i := 0; i < len(inner); i++ {
+		switch inner[i] {
+		case '(':
+			depth++
+		case ')':
+			depth--
+		case ' ':
+			if depth == 0 {
+				if strings.TrimSpace(inner[start:i]) != "" {
+					out = append(out, topConjuncts(inner[start:i])...)
+				}
+				start = i + 1
+			}
+		}
+	}
+	if strings.TrimSpace(inner[start:]) != "" {
+		out = append(out, topConjuncts(inner[start:])...)
+	}
+	return out
+}
+
+var splitMode = false
+
 func (e *Enc) oblige(kind, label string, pc, goal string, props []string, pos token.Pos, detail string) *Obl {
 	if e.dry > 0 {
 		return nil
+	}
+	if splitMode && kind != "vacuity" {
+		// debugging aid: one obligation per top-level conjunct (also below one implication)
+		pre, body := "", goal
+		if strings.HasPrefix(goal, "(=> ") {
+			// (=> A B): split B
+			d, i := 0, 4
+			for ; i < len(goal); i++ {
+				if goal[i] == '(' {
+					d++
+				} else if goal[i] == ')' {
+					d--
+				}
+				if d == 0 && goal[i] == ' ' && i > 4 {
+					break
+				}
+				if d == 0 && goal[4] != '(' && goal[i] == ' ' {
+					break
+				}
+			}
+			if i < len(goal) {
+				pre, body = goal[4:i], goal[i+1:len(goal)-1]
+			}
+		}
+		cs := topConjuncts(body)
+		if len(cs) > 1 {
+			var last *Obl
+			for k, c := range cs {
+				g := c
+				if pre != "" {
+					g = "(=> " + pre + " " + c + ")"
+				}
+				sm := splitMode
+				splitMode = false
+				last = e.oblige(kind, fmt.Sprintf("%s/c%d", label, k+1), pc, g, props, pos, c)
+				splitMode = sm
+			}
+			return last
+		}
 	}
 	base := fmt.Sprintf("%s/%s[%s]", e.topKey, kind, label)
 	e.oblNames[base]++
@@ -444,7 +561,7 @@ func (e *Enc) wf(t types.Type, term string, next string) string {
 	case *types.Pointer, *types.Map:
 		return "(and (<= 0 " + term + ") (< " + term + " " + next + "))"
 	case *types.Slice:
-		return "(and (<= 0 (s-off " + term + ")) (<= 0 (s-len " + term + ")) (<= (s-len " + term + ") (s-cap " + term + ")) (<= (s-cap " + term + ") 281474976710656)" +
+		return "(and (<= 0 (s-off " + term + ")) (<= 0 (s-len " + term + ")) (<= (s-len " + term + ") (s-cap " + term + ")) (<= (s-cap " + term + ") 17592186044416)" +
 			" (<= 0 (s-arr " + term + ")) (< (s-arr " + term + ") " + next + ") (=> (= (s-arr " + term + ") 0) (= (s-cap " + term + ") 0)))"
 	case *types.Interface:
 		return "(and (<= 0 (i-val " + term + ")) (< (i-val " + term + ") " + next + ") (<= 0 (i-tag " + term + ")) (=> (= (i-tag " + term + ") 0) (= (i-val " + term + ") 0)))"
@@ -483,6 +600,25 @@ func (e *Enc) comp(name string, sort Sort) {
 		e.declare(name+"!0", sort)
 		if name == "$next" {
 			e.fact("(>= $next!0 1)")
+		}
+		// the heap at function entry is well-typed: every value stored in an allocated object is in
+		// range and refers to objects allocated before entry
+		if t, ok := e.compTypes[name]; ok && name != "$next" {
+			if _, isNext := e.comps["$next"]; !isNext {
+				e.comp("$next", "Int")
+			}
+			switch e.compKind[name] {
+			case "field":
+				w := e.wf(t, "(select "+name+"!0 wr)", "$next!0")
+				if w != "true" {
+					e.fact("(forall ((wr Int)) (! (=> (and (< 0 wr) (< wr $next!0)) " + w + ") :pattern ((select " + name + "!0 wr))))")
+				}
+			case "elem":
+				w := e.wf(t, "(select (select "+name+"!0 wr) wi)", "$next!0")
+				if w != "true" {
+					e.fact("(forall ((wr Int) (wi Int)) (! (=> (and (< 0 wr) (< wr $next!0)) " + w + ") :pattern ((select (select " + name + "!0 wr) wi))))")
+				}
+			}
 		}
 	}
 }
@@ -530,18 +666,27 @@ func (e *Enc) elemComp(elem types.Type) (string, Sort) {
 			k = "byte"
 		}
 	}
+	e.compTypes["A_"+san(k)] = elem
+	e.compKind["A_"+san(k)] = "elem"
 	return "A_" + san(k), es
 }
 
 func (e *Enc) fieldComp(st types.Type, idx int) (string, Sort, types.Type) {
 	u := st.Underlying().(*types.Struct)
 	f := u.Field(idx)
-	return "F_" + san(typeKey(e.g, st)) + "_" + f.Name(), e.sortOf(f.Type()), f.Type()
+	n := "F_" + san(typeKey(e.g, st)) + "_" + f.Name()
+	e.compTypes[n] = f.Type()
+	e.compKind[n] = "field"
+	return n, e.sortOf(f.Type()), f.Type()
 }
 
 func (e *Enc) mapComps(m *types.Map) (dom, val, cnt string, ks, vs Sort) {
 	ks, vs = e.sortOf(m.Key()), e.sortOf(m.Elem())
 	k := san(typeKey(e.g, m.Key()) + "_" + typeKey(e.g, m.Elem()))
+	if ks == "Int" {
+		e.compTypes["Mv_"+k] = m.Elem()
+		e.compKind["Mv_"+k] = "elem"
+	}
 	return "Md_" + k, "Mv_" + k, "Mn_" + k, ks, vs
 }
 
